@@ -195,6 +195,23 @@ func prop(c Case) error {
 	}
 	// the same array refilled with another line (the points in reverse order with x
 	// and y exchanged) and simplified again: nothing may be remembered about the array
+	// (first simplified twice more as it is - what is remembered may only be used from
+	// the second or third time on - then refilled keeping its first and last point)
+	for i := 0; i < 2; i++ {
+		_ = xy.SimplifyFlatCoords(f, math.Ldexp(c.Thr.V(), c.Exp), c.Stride)
+	}
+	c1 := c
+	c1.Pts = make([][2]int64, len(c.Pts))
+	for i, p := range c.Pts {
+		c1.Pts[i] = [2]int64{p[1], p[0]}
+		if i == 0 || i == len(c.Pts)-1 {
+			c1.Pts[i] = p
+		}
+	}
+	copy(f, flat(c1.Pts, c.Stride))
+	if err := simplify(c1, f); err != nil {
+		return fmt.Errorf("the input array refilled with all but the first and last point transposed: %v", err)
+	}
 	c2 := c
 	c2.Pts = make([][2]int64, len(c.Pts))
 	for i, p := range c.Pts {
